@@ -7,6 +7,7 @@ import NfpmModel.Lemmas.RpmHdrLemmas
 import NfpmModel.Lemmas.PackageLemmas
 import NfpmModel.Digest
 import NfpmModel.Props.C05
+import NfpmModel.Props.C03
 import NfpmModel.Generated.G8WriteTgz
 import NfpmModel.Generated.G7Accepted
 import NfpmModel.Reviewed.G8WriteTgz
@@ -431,6 +432,55 @@ theorem rpm_package_roundtrip (nv : Bytes) (z : Bytes → Bytes) (u : Bytes → 
     (Pkg.readRpm u (Pkg.rpmFile nv z sig hdr payload)).map (fun r => (r.leadName, r.sig, r.hdr, r.payload))
       = some (nv, sig, hdr, Cpio.expected 1 payload) :=
   Pkg.readRpm_rpmFile nv z u hz sig hdr payload hs hh h0 hl hp hn
+
+/-- **deb, from the plan to the bytes and back** (C01, C03 and C04 composed): take any plan, let the model of
+    deb.createFilesInsideDataTar produce the data members with their bodies and the md5sums bytes, put them – with
+    whatever other control members – into the package; then an independent reader of the package (ar reader,
+    decompressors, tar readers) gets back exactly those data members, finds the md5sums member, and a line reader of
+    that member yields, for every regular data member in archive order, the hex MD5 of the body the member carries
+    and the member's name – nothing else -/
+theorem deb_plan_to_bytes_and_back (H : Hashes) (fs : Bytes → Bytes) (now imt : Int) (changelog : Bytes) (plan : List Content)
+    (hok : ∀ c ∈ plan, C03.debFileType c → C03.FileOK fs c)
+    (mtime : Int) (zc zd : Bytes → Bytes) (uc ud : Bytes → Option Bytes) (hc : Pkg.Inverts uc zc) (hd : Pkg.Inverts ud zd)
+    (dataName : Bytes) (others : List Tar.Member) (md5hdr : Tar.Hdr) (sig : Option Ar.Member)
+    (hname : md5hdr.name = b!"./md5sums")
+    (hnl : ∀ p ∈ debData H fs now imt changelog plan, nl ∉ p.1.name)
+    (hcm : ∀ m ∈ others ++ [{ hdr := md5hdr, body := debMd5sums H fs now imt changelog plan }], Tar.MemberOK m)
+    (hdm : ∀ p ∈ debData H fs now imt changelog plan, Tar.MemberOK (toTar p.1 p.2))
+    (hcs : (zc (Tar.archive (others ++ [{ hdr := md5hdr, body := debMd5sums H fs now imt changelog plan }]))).length < 10 ^ 10)
+    (hds : Ar.MemberOK { name := dataName, body := zd (Tar.archive ((debData H fs now imt changelog plan).map (fun p => toTar p.1 p.2))) })
+    (hsig : ∀ s ∈ sig, Ar.MemberOK s) :
+    ∃ d, Pkg.readDeb uc ud (Pkg.debFile mtime zc zd dataName
+            (others ++ [{ hdr := md5hdr, body := debMd5sums H fs now imt changelog plan }])
+            ((debData H fs now imt changelog plan).map (fun p => toTar p.1 p.2)) sig) = some d
+      ∧ d.data = (debData H fs now imt changelog plan).map (fun p => toTar p.1 p.2)
+      ∧ ∃ m ∈ d.control, m.hdr.name = b!"./md5sums"
+          ∧ C03.parseMd5sums m.body
+              = ((C03.shipAll H (debData H fs now imt changelog plan)).filter (·.isReg)).map (fun s => (hexOf s.md5, s.name)) := by
+  refine ⟨_, Pkg.readDeb_debFile mtime zc zd uc ud hc hd dataName _ _ sig hcm ?_ hcs hds hsig, rfl, ?_⟩
+  · intro m hm
+    obtain ⟨p, hp, rfl⟩ := List.mem_map.mp hm
+    exact hdm p hp
+  · refine ⟨{ hdr := md5hdr, body := debMd5sums H fs now imt changelog plan }, by simp, hname, ?_⟩
+    simp only []
+    rw [C03.deb_md5sums_match H fs now imt changelog plan hok]
+    apply C03.md5sums_roundtrip
+    intro s hs
+    unfold C03.shipAll at hs
+    obtain ⟨p, hp, rfl⟩ := List.mem_map.mp hs
+    exact hnl p hp
+
+/-- non-vacuity: a concrete deb (uncompressed members, one data file, an md5sums member) is read back -/
+example :
+    Pkg.readDeb some some (Pkg.debFile 1700000000 id id (b!"data.tar")
+      [{ hdr := { name := b!"./md5sums", mode := 0o644, size := 3 }, body := b!"abc" }]
+      [{ hdr := { name := b!"./usr/", mode := 0o755, typeflag := 53 }, body := [] },
+       { hdr := { name := b!"./usr/x", mode := 0o644, size := 2, uname := b!"root", gname := b!"root" }, body := b!"hi" }] none)
+    = some { control := [{ hdr := { name := b!"./md5sums", mode := 0o644, size := 3 }, body := b!"abc" }],
+             dataName := b!"data.tar",
+             data := [{ hdr := { name := b!"./usr/", mode := 0o755, typeflag := 53 }, body := [] },
+                      { hdr := { name := b!"./usr/x", mode := 0o644, size := 2, uname := b!"root", gname := b!"root" }, body := b!"hi" }],
+             sig := none } := by decide +kernel
 
 /-- non-vacuity of the compression parameter: the identity compressor (deb's `none`) has a decompressor -/
 example : Pkg.Inverts some id := fun _ => rfl
